@@ -684,6 +684,9 @@ def calls_fail_or_return_a_reply(ctx):
                                   '(and the communicator lock) beyond its time-out', f)
         if n < 1 and deadlines:
             ctx.undecided(f'{f.qualname}:expired deadline raises', f.node, f'the deadline {sorted(deadlines)} is computed, but its comparison was not recognised', f)
+        elif n < 1 and any(isinstance(a, ast.Name) and a.id == 'timeout' for c in calls_in(f.node) for a in list(c.args) + [k.value for k in c.keywords]
+                           if not (isinstance(c.func, ast.Attribute) and c.func.attr in ('recv', 'wait', 'select'))):
+            ctx.undecided(f'{f.qualname}:expired deadline raises', f.node, 'the time-out is handed to a helper (object) that keeps the deadline: not followed', f)
         elif n < 1:
             ctx.bad(f'{f.qualname}:expired deadline raises', f.node, 'no comparison of time.time() with the deadline in the receive loop', f)
 
@@ -695,3 +698,41 @@ def reconnect_callbacks_are_walked_over_a_snapshot(ctx):
     reconnect: the callbacks registered later (trigger_polls) never run, polling does not resume"""
     from sa.rules import common
     common.iterate_while_mutating(ctx, {'frappy.io', 'frappy.lib.asynconn'})
+
+
+@rule('C16.R11', min_instances=2)
+def nothing_lazy_leaves_the_communicator_lock(ctx):
+    """frappy.io: what is computed inside `with self._lock:` is computed there.  A lazy iterator created inside the region
+    (`map(step, requests)`, `filter(...)`, a generator expression) and consumed after the region is left performs its
+    communicate() calls WITHOUT the lock: the requests of a multicomm transaction interleave with other traffic"""
+    m = ctx.m
+    n = 0
+    LAZY = ('map', 'filter', 'zip')
+    for q, f in sorted(m.functions.items()):
+        if f.module.name != 'frappy.io' or f.cls is None:
+            continue
+        for w in [x for x in body_walk(f.node) if isinstance(x, ast.With) and any('_lock' in src(i.context_expr) for i in x.items)]:
+            n += 1
+            ctx.analysed(f)
+            inside = {id(x) for x in ast.walk(w)}
+            bad_ = []
+            for st in walk_local(w):
+                lazy = None
+                if isinstance(st, (ast.Assign, ast.Return)) and st.value is not None:
+                    v = st.value
+                    if isinstance(v, ast.GeneratorExp) or (isinstance(v, ast.Call) and isinstance(v.func, ast.Name) and v.func.id in LAZY):
+                        lazy = v
+                if lazy is None or not any(isinstance(c, ast.Call) or isinstance(c, ast.Name) and c.id not in LAZY for c in ast.walk(lazy)):
+                    continue
+                if isinstance(st, ast.Return):
+                    bad_.append(st)
+                    continue
+                names = {t.id for t in st.targets if isinstance(t, ast.Name)}
+                if any(isinstance(x, ast.Name) and x.id in names and isinstance(x.ctx, ast.Load) and id(x) not in inside for x in body_walk(f.node)):
+                    bad_.append(st)
+            ctx.check(not bad_, f'{f.qualname}:no lazy iterator leaves the _lock region', bad_[0] if bad_ else w,
+                      'everything created inside the region is evaluated there',
+                      f'`{src(bad_[0]) if bad_ else ""}` only creates an iterator inside `with self._lock:`; its elements are computed where it is consumed - '
+                      'after the lock was released: the steps of the transaction run unlocked and interleave with other threads\' traffic', f)
+    if n < 2:
+        raise AnchorMissing('`with self._lock:` regions not found in frappy.io')
